@@ -105,7 +105,9 @@ def selftests(events, rng):
     """An output grammar that lost a visibly derivable string must be rejected ('language'); an output that
     visibly violates a postcondition must be rejected too."""
     out = []
-    cands = [e for e in events if "exc" not in e and e["op"] == "transform"
+    def unsigned(e):       # with signed weights a visibly derivable string may still have total weight zero
+        return not any(isinstance(r["w"], list) and r["w"][0] < 0 for r in e["in"]["rules"])
+    cands = [e for e in events if "exc" not in e and e["op"] == "transform" and unsigned(e)
              and visible_string(e["in"], e["sigma"], e["L"])]
     rng.shuffle(cands)
     for e in cands[:10]:
